@@ -495,6 +495,36 @@ func init() {
 }
 
 func init() {
+	// a voter is demoted during this leadership; the leader then loses the other voter and keeps only the demoted
+	// server: its acknowledgement must no longer confirm leadership
+	regScenario("verify-demoted", func() *Scenario {
+		return &Scenario{Nodes: voters(3), Devs: DevAllNet | DevStepEarly | DevTimer, Horizon: 700,
+			Goal: func(w *World) bool { return w.scriptDone() && w.vals["vc"] > 0 && w.calls[w.vals["vc"]].Done },
+			Steps: []Step{
+				stepApplyLeader("apply1"),
+				stepDo("demote-a-follower", whenSettled, func(w *World) {
+					l := w.leader()
+					w.vals["L"] = l.id
+					f := w.aFollower()
+					w.vals["D"] = f.id
+					w.demote(l, f.id, 0)
+				}),
+				stepDo("cut-the-other-voter+verify", func(w *World) bool {
+					return whenSettled(w) && w.leader().id == w.vals["L"]
+				}, func(w *World) {
+					l := w.leader()
+					for _, o := range w.nodes {
+						if o.id != l.id && o.id != w.vals["D"] {
+							w.isolate(o.id, true)
+						}
+					}
+					w.vals["vc"] = w.verify(l).ID
+				}),
+			}}
+	})
+}
+
+func init() {
 	// five voters: the leader keeps one follower, the other three are cut off; one reachable voter is not a majority
 	regScenario("verify5-pair", func() *Scenario {
 		return &Scenario{Nodes: voters(5), Devs: DevAllNet | DevStepEarly | DevTimer, Horizon: 600,
